@@ -379,6 +379,12 @@ def check(ctx: Ctx):
     check_grid_dispatch(ctx)
     from ..rules import support
 
+    # automatic intensity levels: defined for an empty fit region and converted to float (a bare min/max over an empty region
+    # raises, levels in the image's own dtype make the bounds wrap around)
+    from . import c04 as _c04
+
+    support.compose(ctx, _c04.check_levels, keep=("LEVELS",), site_filter=lambda s_: s_.endswith(":empty-region") or s_.endswith(":dtype"))
+    ctx.expect("LEVELS", 2)
     support.check_none_arithmetic(ctx, (f"{IMG}.refine_droplets", "droplets.emulsions.EmulsionTimeCourse.from_storage"))
     support.check_elementwise_shape_methods(ctx)
     support.check_scalar_wrapper(ctx)
